@@ -16,6 +16,7 @@ BUDGET = {
     "ice40": (300, 4000),
     "nx": (300, 5000),
     "nxosc": (100, 1000),
+    "nxoscfin": (40, 400),
     "intel": (120, 3000),
     "gw1n": (300, 6000),
     "gwosc": (80, 1000),
@@ -31,8 +32,9 @@ def norm_case(c):
     c = dict(c)
     if "outs" in c:
         c["outs"] = [tuple(o) for o in c["outs"]]
-    if "out" in c:
-        c["out"] = tuple(c["out"])
+    for k in ("out", "hf", "hfsdc"):
+        if c.get(k) is not None:
+            c[k] = tuple(c[k])
     return c
 
 
@@ -153,7 +155,10 @@ def probes(ctx):
     recs = L.run_cases([j["case"] for j in ents], procs=1) if ents else []
     for j, r in zip(ents, recs):
         fid = j["finding"]
-        if j["expect"] == "accepted":
+        if j["expect"] == "no-crash":
+            fails = r["status"] not in ("ok", "rejected", "assertion") or bool(r["viol"]) or bool(r.get("error"))
+            what = "status=%s %s" % (r["status"], "; ".join(r["viol"])[:200])
+        elif j["expect"] == "accepted":
             fails = r["status"] != "ok" or bool(r["viol"]) or bool(r.get("error"))
             what = "status=%s %s" % (r["status"], "; ".join(r["viol"])[:200])
         else:
